@@ -60,6 +60,8 @@ def _same(a, b):
     for x, y in ((a, b), (b, a)):      # numpy.ndarray is modelled as a builtin constructor, type(array) as a type tag
         if isinstance(x, TypeTag) and x.name == 'ndarray' and isinstance(y, Builtin) and y.name == 'numpy.ndarray':
             return True
+    if isinstance(a, ClassRef) and isinstance(b, ClassRef):
+        return a.info is b.info                      # a class is one object however many references were made to it
     if isinstance(a, (Closure, AbsFun, Builtin, Ref, SStr, ClassRef, SOpaque)) or \
        isinstance(b, (Closure, AbsFun, Builtin, Ref, SStr, ClassRef, SOpaque)):
         return a is b
@@ -1117,6 +1119,10 @@ def identical(I, a, b):
         return a is b
     if isinstance(a, bool) and isinstance(b, bool):
         return a == b
+    if isinstance(a, ClassRef) and isinstance(b, ClassRef):
+        return a.info is b.info
+    if isinstance(a, TypeTag) and isinstance(b, TypeTag):
+        return a.name == b.name
     if isinstance(a, (Ref, Closure, AbsFun, Builtin, SStr, ClassRef, SOpaque, TypeTag)) or \
        isinstance(b, (Ref, Closure, AbsFun, Builtin, SStr, ClassRef, SOpaque, TypeTag)):
         return a is b
